@@ -67,7 +67,7 @@ ALPHAS_SWEEP = [0.05, 0.0, 1.0]
 
 def budget(tier):
     if tier == "quick":
-        return {"examples": 4800, "shards": 16}
+        return {"examples": 9600, "shards": 16}
     return {"examples": 160000, "shards": 16}
 
 
